@@ -290,10 +290,28 @@ def r86(ctx, fx):
             continue
         n += 1
         hits = []
-        for x in lib.hwalk(f.hir["body"]):
+        from .c11 import _anc_walk
+        # names that a condition of the function reads
+        cond_names = set()
+        for x, anc in _anc_walk(f.hir["body"]):
+            if x.get("k") == "path" and any(key in ("cond", "guard") or (key == "scrut" and p.get("src") != "TryDesugar") or
+                                            (key == "init" and p.get("k") == "letx") for p, key in anc):
+                cond_names.add((x.get("res") or {}).get("name") or x.get("name"))
+        for x, anc in _anc_walk(f.hir["body"]):
             if x.get("k") == "mcall" and x.get("name") in DECIDE and \
                     any(y.get("k") == "mcall" and y.get("name") == "fragment" for y in lib.hwalk(x["recv"])):
-                hits.append((x["name"], x.get("ln")))
+                # a decision: the answer stands in a condition (if / while / match / guard / if-let), or in a `let` of a bool / Option that a condition reads;
+                # text that is only copied into a message or a token is not one
+                decides = any(key in ("cond", "guard") or (key == "scrut" and p.get("src") != "TryDesugar") or (key == "init" and p.get("k") == "letx")
+                              for p, key in anc)
+                if not decides:
+                    for p, key in anc:
+                        ty = str((p.get("init") or {}).get("ty", "")) if isinstance(p.get("init"), dict) else ""
+                        if p.get("k") == "let" and key == "init" and (ty == "bool" or "Option<" in ty[:40]):
+                            bound = {q["name"] for q in lib.hwalk(p.get("pat")) if q.get("k") == "bind"}
+                            decides = bool(bound & cond_names)
+                if decides:
+                    hits.append((x["name"], x.get("ln")))
         if not hits:
             ctx.inst(rid, f.path, nontrivial=False)
         for name, ln in hits:
